@@ -693,6 +693,39 @@ lazy_static! {
     };
 }
 
+/// Verification hook (feature `dryoc_verif`): an observer invoked by the
+/// page-aligned allocator immediately before it frees a region, with the
+/// region's address, its size, and the number of non-zero bytes it still holds.
+#[cfg(feature = "dryoc_verif")]
+pub mod verif_hooks {
+    use std::sync::RwLock;
+
+    /// Callback type: `(address, size, non-zero byte count)`.
+    pub type ReleaseObserver = fn(usize, usize, usize);
+
+    static OBSERVER: RwLock<Option<ReleaseObserver>> = RwLock::new(None);
+
+    /// Registers (or with `None` removes) the release observer.
+    pub fn set_release_observer(observer: Option<ReleaseObserver>) {
+        *OBSERVER.write().unwrap() = observer;
+    }
+
+    /// Returns the page size used by the allocator.
+    pub fn page_size() -> usize {
+        *super::PAGESIZE
+    }
+
+    pub(super) unsafe fn observe_release(ptr: *const u8, size: usize) {
+        if let Some(observer) = *OBSERVER.read().unwrap() {
+            let nonzero = std::slice::from_raw_parts(ptr, size)
+                .iter()
+                .filter(|b| **b != 0)
+                .count();
+            observer(ptr as usize, size, nonzero);
+        }
+    }
+}
+
 fn _page_round(size: usize, pagesize: usize) -> usize {
     size + (pagesize - size % pagesize)
 }
@@ -762,6 +795,9 @@ unsafe impl Allocator for PageAlignedAllocator {
     #[inline]
     unsafe fn deallocate(&self, ptr: ptr::NonNull<u8>, layout: Layout) {
         let pagesize = *PAGESIZE;
+
+        #[cfg(feature = "dryoc_verif")]
+        verif_hooks::observe_release(ptr.as_ptr(), layout.size());
 
         let ptr = ptr.as_ptr().offset(-(pagesize as isize));
 
